@@ -374,12 +374,20 @@ func c04r3(c *Ctx) {
 	keyPar := "P:" + paramName(isPaused.Params[1])
 	// (a) the read
 	nread := 0
-	for _, b := range isPaused.Blocks {
-		for _, in := range b.Instrs {
-			call, ok := in.(*ssa.Call)
-			if !ok || InvokeName(call) != "AccountDataHandler.RetrieveValue" {
-				continue
-			}
+	isRead := func(in ssa.Instruction) (string, bool) {
+		if call, ok := in.(*ssa.Call); ok && InvokeName(call) == "AccountDataHandler.RetrieveValue" {
+			return "RetrieveValue", true
+		}
+		return "", false
+	}
+	var readSites []EffectSite
+	for _, rs := range c.P.EffectSitesBelow(e, "pauseread", isRead) {
+		readSites = append(readSites, rs)
+	}
+	for _, rs := range readSites {
+		{
+			call := rs.In.(*ssa.Call)
+			e := rs.Env
 			nread++
 			org := accountOrigin(e, writtenAccount(call), 0)
 			if len(org) == 1 && org[0] == sysAddr && e.Term(call.Call.Args[0]) == keyPar {
@@ -415,8 +423,35 @@ func c04r3(c *Ctx) {
 	var valTerm string
 	for _, b := range isPaused.Blocks {
 		for _, in := range b.Instrs {
-			if ex, ok := in.(*ssa.Extract); ok && ex.Index == 0 {
-				if call, ok := ex.Tuple.(*ssa.Call); ok && InvokeName(call) == "AccountDataHandler.RetrieveValue" {
+			ex, ok := in.(*ssa.Extract)
+			if !ok {
+				continue
+			}
+			call, ok := ex.Tuple.(*ssa.Call)
+			if !ok {
+				continue
+			}
+			if ex.Index == 0 && InvokeName(call) == "AccountDataHandler.RetrieveValue" {
+				valTerm = e.Term(ex)
+			}
+			// the stored bytes handed up by a helper that reads them: result idx of the helper is what RetrieveValue returned
+			if sc := call.Call.StaticCallee(); sc != nil && len(sc.Blocks) > 0 && c.P.InPkgs(sc, "builtInFunctions") {
+				all, n := true, 0
+				for _, r := range returnsOf(sc) {
+					if ex.Index >= len(r.Results) || lastIsError(sc) && !isSuccessReturn(r) {
+						continue
+					}
+					n++
+					rx, ok := liveRetval(r, ex.Index).(*ssa.Extract)
+					if !ok || rx.Index != 0 {
+						all = false
+						continue
+					}
+					if rc, ok := rx.Tuple.(*ssa.Call); !ok || InvokeName(rc) != "AccountDataHandler.RetrieveValue" {
+						all = false
+					}
+				}
+				if all && n > 0 {
 					valTerm = e.Term(ex)
 				}
 			}
